@@ -334,6 +334,15 @@ pub fn expected_verdict(cfg: &Config, tr: &Trace, fail_on_skipped: bool) -> (boo
             *e = (*e).max(cur);
         }
     }
+    // "a parser error was delivered": what the parser handed over counts, whether or not
+    // the runner forwarded it
+    for l in &tr.log {
+        if let crate::hs::LogKind::ParserDeliver(i) = l.kind {
+            if let Some(crate::spec::Item::Err(e)) = cfg.items.get(i) {
+                return (true, format!("parser error {e} was delivered by the parser"));
+            }
+        }
+    }
     for te in &tr.events {
         match &te.ev {
             Ev::ParseErr(e) => return (true, format!("parser error {e}")),
